@@ -733,10 +733,10 @@ def run(ctx):
     H.history_stage(ctx, "C06", H.colliding_pairs(rng, small, ctx.pick(10, 100) * (1 if table_ok else 6)))
     H.shared_input_stage(ctx, "C06", [small(rng) for _ in range(ctx.pick(20, 150))]
                          + [loop_case(rng, stationary=True) for _ in range(ctx.pick(5, 50))])
-    cases = [loop_case(rng) for _ in range(ctx.pick(34, 300))]
+    cases = [loop_case(rng) for _ in range(ctx.pick(28, 300))]
     cases += [loop_case(rng, stationary=True) for _ in range(ctx.pick(30, 300))]
     metas = run_loop_cases(ctx, cases)
-    cases = [straddle_case(rng) for _ in range(ctx.pick(40, 400))]
+    cases = [straddle_case(rng) for _ in range(ctx.pick(30, 400))]
     cases += [leap_case(rng) for _ in range(ctx.pick(3, 25))] + [leap_case(rng, outs=True) for _ in range(ctx.pick(3, 25))]
     # the steady state after a New-Year straddle: 6 sites of 1200 minutes, one crew, 4 surveys a year, Nov 1 start
     cases.append({"kind": "routine", "method_class": "site", "start": [2025, 11, 1], "end": [2026, 12, 31], "ndays": 426,
